@@ -19,6 +19,8 @@ pub fn exec_case(case: &Value) -> Value {
         "num_cmp" => props::c04::exec_num_cmp(case),
         "parse_cond" | "parse_match" => props::parse::exec(case),
         "load_text" => props::c15::exec(case),
+        "history" => props::c14::exec(case),
+        "tpl_replace" | "tpl_load" => props::c17::exec(case),
         _ => serde_json::json!({ "error": format!("unknown op {op}") }),
     }
 }
@@ -33,6 +35,8 @@ pub fn gen_cases(prop: &str, tier: &str, seed: u64, out: &mut dyn FnMut(Value)) 
         "C16" => props::c16::gen(tier, seed, out),
         "C15" => props::c15::gen(tier, seed, out),
         "C01" => props::c01::gen(tier, seed, out),
+        "C17" => props::c17::gen(tier, seed, out),
+        "C14" => props::c14::gen(tier, seed, out),
         "C06" => props::engine_props::gen_c06(tier, seed, out),
         "C07" => props::engine_props::gen_c07(tier, seed, out),
         "C09" => props::engine_props::gen_c09(tier, seed, out),
